@@ -22,13 +22,13 @@ def specs(tier):
         combos += [("BufferedJSON", None), ("MemoryBufferedJSON", None), ("BufferedJSON", ("backend", 0)), ("MemoryBufferedJSON", ("backend", 0))]
     for fam, ctx in combos:
         for which in ("dict", "list"):
-            writers = WRITERS_Q[which] if tier == "quick" else [o.name for o in ops.mutators(which)]
+            writers = [o.name for o in ops.mutators(which)] if (tier == "thorough" and fam == "JSON") else WRITERS_Q[which]
             for rel in ("same", "two"):
                 for r in READERS[which]:
                     if r == "getitem_child":
                         continue
                     for w in writers:
-                        out.append({"fam": fam, "which": which, "relation": rel, "op1": r, "op2": w, "ctx": list(ctx) if ctx else None, "variants": tier == "thorough"})
+                        out.append({"fam": fam, "which": which, "relation": rel, "op1": r, "op2": w, "ctx": list(ctx) if ctx else None, "variants": tier == "thorough" and fam == "JSON"})
     return out
 
 
@@ -50,7 +50,7 @@ def main(tier, seed):
 
 
 BOUNDS = {"quick": {"classes": "JSONDict/JSONList unbuffered; BufferedJSON and MemoryBufferedJSON dict/list inside buffer_backend()", "threads": "1 reader + 1 writer", "readers": READERS, "writers": WRITERS_Q, "relations": ["same", "two"]},
-          "thorough": {"writers": "all table mutators", "extra": "JSONAttr, buffered classes outside contexts, capacity-0 contexts, trace variants"}}
+          "thorough": {"writers": "all table mutators for the unbuffered JSON family (with trace variants), the quick table elsewhere", "extra": "JSONAttr, buffered classes outside contexts, capacity-0 contexts"}}
 ASSUMPTIONS = [
     "the admissible outcomes are those of the two serial orders computed on the real library (the read returns the value before or after the write; the final state contains the write)",
     "conflict-serializability of the recorded events is a sufficient condition; sat witnesses count only after replay on real threads",
